@@ -103,8 +103,27 @@ fn random_history(l: &mut Local, rng: &mut Rng, data: &[u8], want: &Obs, nt: boo
             hist.push_str(&format!("{}[{}..{}];", FORM_NAMES[form as usize], w[0], w[1]));
             match rng.below(8) {
                 0 => {
-                    clones.push((g.clone(), w[1]));
-                    hist.push_str("clone;");
+                    if rng.chance(1, 2) {
+                        clones.push((g.clone(), w[1]));
+                        hist.push_str("clone;");
+                    } else {
+                        // clone_from onto a destination that already digested another stream (full
+                        // contexts, eliminations, a declared size): nothing of it may survive
+                        let mut dst = Generator::new();
+                        let n = *rng.pick(&[100usize, 700, 3000, 9000, 40000]);
+                        let kind = *rng.pick(&[0usize, 4]);
+                        let junk = bytes::gen_kind(rng, kind, n);
+                        if rng.chance(1, 3) {
+                            let _ = dst.set_fixed_input_size(n as u64);
+                        }
+                        dst.update(&junk);
+                        if rng.chance(1, 2) {
+                            let _ = dst.finalize();
+                        }
+                        dst.clone_from(&g);
+                        clones.push((dst, w[1]));
+                        hist.push_str(&format!("clone_from(onto a generator that digested {} bytes);", n));
+                    }
                 }
                 1 => {
                     // finalizing must not disturb later updates; its result is the hash of the prefix
